@@ -17,8 +17,16 @@
   `GcScript.Reachable` states (soundness, completeness, no leak after dropping everything) applies
   to the graph of every compiled program (`Props/StructMem.lean`).
 
-  Not modelled here (the struct profile of the generator avoids them): the rewiring done by
-  `switch_s`/`switch_c` and the detachment of `once` when events flow, lazies that capture cells.
+  `switch_s` rewires its inner node while events flow, according to the value of its selector cell.
+  M_struct does not compute values: the driver runs the specification S next to it and tells it, before
+  every line, what every cell is worth after that line (`cellvals`), and which cell of S a switch's
+  selector is (`@id`); `rewire` then cuts the old candidate and attaches the new one, taking the
+  handles it needs by `deref`s along owned edges from a handle the client holds (`pathTo`).  The
+  theorems of `Props/StructMem.lean` hold for every sequence of such hints.
+
+  Not modelled here (the struct profiles of the generator avoid them): `switch_c` (its cell of cells
+  holds a handle *inside a cell value*, its result an unforced thunk that owns a cell: value-owned
+  handles), the detachment of `once` when it fires, lazies that capture cells.
 -/
 import SodiumVerif.Model.GcScript
 
